@@ -259,6 +259,11 @@ def run(tier, seed, work):
     fctl = common.fact_controls()
     factmod.run_facts(work, F + fctl)
     common.check_fact_controls(r, fctl)
+    for fa in LF:
+        # every sampled token is well-formed and compiles on the pinned tree: a literal the library no longer compiles
+        # has no value at all, which the property forbids as much as a wrong one
+        if fa.status == "broken" and ("error:" in fa.detail or "does not compile" in fa.detail):
+            fa.status, fa.detail = "refuted", "the library does not compile this well-formed literal: " + fa.detail[:300]
     nf = common.settle_facts(r, F)
     common.floor_check(r, "scan_base rows", len(rows), 4)
     common.floor_check(r, "EQ table kernels proved", n["proved"], 36)
